@@ -1,7 +1,33 @@
 import KcpVerif.Model.Kcp
-/-! C12 — behaviour is invariant under sequence-number and clock wrap-around. -/
+import KcpVerif.Lemmas.KcpShiftOps
+/-!
+C12 — behaviour is invariant under sequence-number and clock wrap-around (protocol core).
+
+A shift `σ = (a, b, t, u) : Shift.Sigma` adds `a` to the endpoint's own send sequence space, `b` to its
+receive sequence space, `t` to its clock and `u` to the peer's clock (see `Lemmas/KcpShiftBasic.lean`):
+
+* `Shift.Sim σ k k'`   — the state `k'` is `k` shifted by `σ` (equality up to `σ`, except on fields
+  that are dead where they may differ: `ts_flush` while `updated = 0`, `ts_probe` while
+  `probe_wait = 0`, `una` of a never-transmitted `snd_buf` entry); `Shift.shiftK σ k` is the
+  canonical such state,
+* `Shift.shiftIn σ`    — the shift of an INCOMING datagram, on wire bytes (PUSH: `ts+u sn+b una+a`,
+  ACK: `ts+t sn+a una+a`, WASK/WINS: `una+a`),
+* `Shift.OutRel σ o o'` — the emitted datagram `o'` is `o` shifted (data segment: `ts+t sn+a una+b`,
+  ACK: `ts+u sn+b una+b`, WASK/WINS: `una+b`, their `sn`/`ts` are dead scratch fields and are
+  not related; payload bytes identical),
+* `Shift.Op`, `Shift.step`, `Shift.run`, `Shift.shiftOp σ` — every operation of the core and its shifted twin.
+
+Main results: `C12_shift_sim` (one step) and `C12_run_shift_invariant` (whole op lists), for ALL
+2^128 shifts and ALL operations with arbitrary arguments (every byte string for `Input`), with no
+side condition.  (Before fix 8db4321 — a segment entering `snd_buf` now carries the current
+timestamp — they needed one, and were false without it: `parse_fastack` compared the never-set
+`ts = 0` of a never-transmitted segment with the clock; `C12_fastack_fresh_regression` replays
+that input.)
+-/
 namespace KcpVerif.Props
-open KcpVerif KcpVerif.Gen KcpVerif.Kcp
+open KcpVerif KcpVerif.Gen KcpVerif.Kcp KcpVerif.Shift
+
+/-! ### the three arithmetic facts -/
 
 /-- every ordering decision of the core is a function of differences -/
 theorem C12_itimediff_shift (a b c : U32) : itimediff (a + c) (b + c) = itimediff a b := by
@@ -13,5 +39,174 @@ theorem C12_eq_shift (a b c : U32) : (a + c = b + c) ↔ a = b := by
   constructor
   · intro h; bv_omega
   · intro h; rw [h]
+
+theorem C12_succ_shift (x c : U32) : (x + c) + 1 = (x + 1) + c := Shift.succ_shift x c
+
+/-! ### function by function -/
+
+/-- `Recv` / `PeekSize`: same return value, same delivered bytes, shifted successor state -/
+theorem C12_recv_shift {σ : Sigma} {k k' : Kcp} (h : Sim σ k k') (buflen : Nat) :
+    Sim σ (recv k buflen).k (recv k' buflen).k ∧ (recv k' buflen).n = (recv k buflen).n ∧
+      (recv k' buflen).data = (recv k buflen).data ∧ peekSize k' = peekSize k :=
+  ⟨(recv_sim h buflen).1, (recv_sim h buflen).2.1, (recv_sim h buflen).2.2, peekSize_sim h⟩
+
+/-- `Send` involves no sequence number and no clock -/
+theorem C12_send_shift {σ : Sigma} {k k' : Kcp} (h : Sim σ k k') (buffer : Bytes) :
+    Sim σ (send k buffer).k (send k' buffer).k ∧ (send k' buffer).ret = (send k buffer).ret ∧
+      (send k' buffer).panic = (send k buffer).panic := send_sim h buffer
+
+/-- `parse_data` (insertion into the receive heap, duplicate detection, window check, move to
+`rcv_queue`) commutes with the shift -/
+theorem C12_parseData_shift {σ : Sigma} {k k' : Kcp} (h : Sim σ k k') (s : Seg) :
+    Sim σ (parseData k s).k (parseData k' (shRcv σ s)).k ∧
+      (parseData k' (shRcv σ s)).rep = (parseData k s).rep ∧
+      (parseData k' (shRcv σ s)).panic = (parseData k s).panic := parseData_sim h s
+
+/-- `parse_una` + `shrink_buf` + `parse_ack` commute with the shift -/
+theorem C12_ack_shift {σ : Sigma} {k k' : Kcp} (h : Sim σ k k') (una sn : U32) :
+    Sim σ (parseAck (shrinkBuf (parseUna k una).1) sn)
+      (parseAck (shrinkBuf (parseUna k' (una + σ.a)).1) (sn + σ.a)) ∧
+      (parseUna k' (una + σ.a)).2 = (parseUna k una).2 :=
+  ⟨parseAck_sim (shrinkBuf_sim (parseUna_sim h una).1) sn, (parseUna_sim h una).2⟩
+
+/-- `parse_fastack` commutes with the shift (it compares `seg.ts` with the ACK's `ts`: both our clock) -/
+theorem C12_fastack_shift {σ : Sigma} {k k' : Kcp} (h : Sim σ k k') (sn ts : U32) :
+    Sim σ (parseFastack k sn ts).1 (parseFastack k' (sn + σ.a) (ts + σ.t)).1 ∧
+      (parseFastack k' (sn + σ.a) (ts + σ.t)).2 = (parseFastack k sn ts).2 := parseFastack_sim h sn ts
+
+/-- `update_ack` is given a difference; the cwnd update compares `snd_una` with its old value by a difference -/
+theorem C12_rtt_cwnd_shift {σ : Sigma} {k k' : Kcp} (h : Sim σ k k') (rtt oldUna : U32) :
+    Sim σ (cwndOnAck (updateAck k rtt) oldUna) (cwndOnAck (updateAck k' rtt) (oldUna + σ.a)) :=
+  cwndOnAck_sim (updateAck_sim h rtt) oldUna
+
+/-- whole `flush` (ack list, window probes, admission, (re)transmission, congestion window):
+shifted state, datagrams related by `OutRel σ`, same interval, same panic flag — no side condition -/
+theorem C12_flush_shift {σ : Sigma} {k k' : Kcp} (h : Sim σ k k') (full : Bool) (now : U32) :
+    FlushRel σ (flush k full now) (flush k' full (now + σ.t)) := flush_sim h full now
+
+theorem C12_update_shift {σ : Sigma} {k k' : Kcp} (h : Sim σ k k') (now : U32) :
+    FlushRel σ (update k now) (update k' (now + σ.t)) := update_sim h now
+
+/-- `Check` answers the same instant, shifted -/
+theorem C12_check_shift {σ : Sigma} {k k' : Kcp} (h : Sim σ k k') (now : U32) :
+    check k' (now + σ.t) = check k now + σ.t := check_sim h now
+
+/-- `shiftIn` keeps the length of a datagram, and the header fields `Input` reads from it are the
+original ones plus the per-command constants (`rd32 (le32 x) = x` at byte level) -/
+theorem C12_shiftIn_fields (σ : Sigma) (data rest : Bytes) (hl : 24 ≤ data.length) :
+    (shiftIn σ data).length = data.length ∧
+    rd32 (shiftHd σ data ++ rest) 0 = rd32 data 0 ∧
+    byteAt (shiftHd σ data ++ rest) 4 = byteAt data 4 ∧
+    rd32 (shiftHd σ data ++ rest) 8 = rd32 data 8 + (inDeltas σ (BitVec.ofNat 8 (byteAt data 4)).toNat).1 ∧
+    rd32 (shiftHd σ data ++ rest) 12 = rd32 data 12 + (inDeltas σ (BitVec.ofNat 8 (byteAt data 4)).toNat).2.1 ∧
+    rd32 (shiftHd σ data ++ rest) 16 = rd32 data 16 + (inDeltas σ (BitVec.ofNat 8 (byteAt data 4)).toNat).2.2 ∧
+    rd32 (shiftHd σ data ++ rest) 20 = rd32 data 20 := by
+  obtain ⟨f0, f4, _, _, f8, f12, f16, f20, _⟩ := shiftHd_fields σ data rest hl
+  exact ⟨shiftIn_length σ data, f0, f4, f8, f12, f16, f20⟩
+
+/-- whole `Input` on wire bytes (every datagram: malformed, multi-segment, forged), any clock -/
+theorem C12_input_shift {σ : Sigma} {k k' : Kcp} (h : Sim σ k k') (data : Bytes)
+    (regular ackNoDelay : Bool) (now : U32) :
+    InRel σ (input k data regular ackNoDelay now) (input k' (shiftIn σ data) regular ackNoDelay (now + σ.t)) :=
+  input_sim h data regular ackNoDelay now
+
+/-! ### the simulation theorem -/
+
+/-- **Shift simulation.** Every operation of the core (Send, Recv, PeekSize, Input, flush, Update,
+Check, SetMtu, NoDelay, WndSize, WaitSnd), with arbitrary arguments, commutes with every shift `σ`:
+same return value, same delivered bytes, same panic flag, output datagrams related by `OutRel σ`,
+`Check`'s instant shifted by `t`, successor states related by `Sim σ`. -/
+theorem C12_shift_sim {σ : Sigma} {k k' : Kcp} (h : Sim σ k k') (op : Op) :
+    Sim σ (step k op).1 (step k' (shiftOp σ op)).1 ∧ ObsRel σ (step k op).2 (step k' (shiftOp σ op)).2 :=
+  step_sim h op
+
+/-- **Whole runs are shift-invariant**, by induction over the op list -/
+theorem C12_run_shift_invariant {σ : Sigma} {k k' : Kcp} (h : Sim σ k k') (ops : List Op) :
+    Sim σ (run k ops).1 (run k' (ops.map (shiftOp σ))).1 ∧
+      All₂ (ObsRel σ) (run k ops).2 (run k' (ops.map (shiftOp σ))).2 := run_sim h ops
+
+theorem C12_fresh_new (conv : U32) : Fresh (Kcp.new conv).snd_queue := fun _ hs => by cases hs
+
+/-- … in particular from a fresh core started at ANY sequence numbers and ANY clock:
+for all 2^128 values of `σ`, i.e. every placement of the 2^31 and 2^32 boundaries -/
+theorem C12_run_from_new (σ : Sigma) (conv : U32) (ops : List Op) :
+    All₂ (ObsRel σ) (run (Kcp.new conv) ops).2 (run (shiftK σ (Kcp.new conv)) (ops.map (shiftOp σ))).2 :=
+  (run_sim (sim_shiftK σ (Kcp.new conv) (C12_fresh_new conv)) ops).2
+
+/-- consequences of `ObsRel` a test can observe without decoding: same return values, same
+delivered bytes, same number of datagrams, each of the same length -/
+theorem C12_obs_consequences {σ : Sigma} {o o' : Obs} (h : ObsRel σ o o') :
+    o'.ret = o.ret ∧ o'.data = o.data ∧ o'.outs.length = o.outs.length ∧
+      All₂ (fun (x y : Bytes) => x.length = y.length) o.outs o'.outs := by
+  refine ⟨h.ret, h.data, (forall₂_length h.outs).symm, ?_⟩
+  have := h.outs
+  generalize o.outs = l at this
+  generalize o'.outs = l' at this
+  induction this with
+  | nil => exact All₂.nil
+  | cons hr _ ih => exact All₂.cons hr.length_eq ih
+
+theorem C12_obsRel_outs_length {σ : Sigma} {l l' : List Obs} (h : All₂ (ObsRel σ) l l') :
+    l'.map (fun o => o.outs.length) = l.map (fun o => o.outs.length) := by
+  induction h with
+  | nil => rfl
+  | cons hr _ ih => simp only [List.map_cons, ih, forall₂_length hr.outs]
+
+/-! ### non-vacuity: a concrete run with data in both directions, a legitimate ACK, window
+update, delivery; the theorem applied with a shift that puts every boundary inside the run -/
+
+def C12_demoOps : List Op :=
+  [ .noDelay 1 10 2 1, .send [1, 2, 3], .send [4], .update 0,
+    .input (encodeHdr 7 (BitVec.ofNat 8 IKCP_CMD_ACK) 0 32 0 1 0 0) true false 5,
+    .input (encodeHdr 7 (BitVec.ofNat 8 IKCP_CMD_PUSH) 0 32 77 0 2 2 ++ [9, 9]) true true 6,
+    .recv 10, .waitSnd, .update 100, .check 120 ]
+
+/-- send space starts at 2^32−1, receive space at 2^31−1, clock at 2^32−5, peer clock just below 2^31 -/
+def C12_demoσ : Sigma := ⟨0xFFFFFFFF#32, 0x7FFFFFFF#32, 0xFFFFFFFB#32, 0x7FFFFFB3#32⟩
+
+set_option maxRecDepth 100000 in
+/-- the run is not trivial: it emits datagrams, delivers the peer's two bytes, answers Check -/
+example : (run (Kcp.new 7) C12_demoOps).2.map (fun o => (o.ret, o.data, o.outs.map List.length, o.time)) =
+    [(0, [], [], none), (0, [], [], none), (0, [], [], none), (0, [], [52], none), (0, [], [], none),
+     (0, [], [24], none), (2, [9, 9], [], none), (0, [], [], none), (0, [], [], none),
+     (0, [], [], some 120#32)] := by decide
+
+example : All₂ (ObsRel C12_demoσ) (run (Kcp.new 7) C12_demoOps).2
+    (run (shiftK C12_demoσ (Kcp.new 7)) (C12_demoOps.map (shiftOp C12_demoσ))).2 :=
+  C12_run_from_new C12_demoσ 7 C12_demoOps
+
+set_option maxRecDepth 100000 in
+/-- … and evaluated: the shifted run really runs across the boundaries (the Check answer wraps) and
+shows the same lengths / returns -/
+example : (run (shiftK C12_demoσ (Kcp.new 7)) (C12_demoOps.map (shiftOp C12_demoσ))).2.map
+      (fun o => (o.ret, o.data, o.outs.map List.length, o.time)) =
+    [(0, [], [], none), (0, [], [], none), (0, [], [], none), (0, [], [52], none), (0, [], [], none),
+     (0, [], [24], none), (2, [9, 9], [], none), (0, [], [], none), (0, [], [], none),
+     (0, [], [], some 115#32)] := by decide
+
+/-! ### regression for the finding repaired by 8db4321 -/
+
+/-- a forged ACK for `sn = 1` arriving after an ACK-only flush has moved two segments into
+`snd_buf` without transmitting them; then two full flushes -/
+def C12_cexOps : List Op :=
+  [ .noDelay 0 (-1) 1 1,          -- fastresend = 1, no congestion window
+    .send [1], .send [2],
+    .flush false 0,               -- IKCP_FLUSH_ACKONLY (what Input does with ackNoDelay): admits both, transmits none
+    .input (encodeHdr 7 (BitVec.ofNat 8 IKCP_CMD_ACK) 0 32 5 1 0 0) true false 6,
+    .flush true 10, .flush true 20 ]
+
+/-- only the clock is shifted, by 2^31 ms (24.8 days) -/
+def C12_cexσ : Sigma := ⟨0, 0, 0x80000000#32, 0⟩
+
+set_option maxRecDepth 100000 in
+/-- Before the repair, `parse_fastack` evaluated `_itimediff(seg.ts = 0 /* never set */, ts)` for the
+never-transmitted segment 0: true with the clock near 0 (one datagram emitted inside `Input`, a
+spurious fast retransmission later: `[0,0,0,0,1,1,0]`), false with the clock shifted by 2^31
+(`[0,0,0,0,0,1,0]`) — on the model and on kcp.go alike (notes/C12.md).  Now `seg.ts` is the
+admission time and both placements give the same counts (as `C12_run_from_new` says they must). -/
+theorem C12_fastack_fresh_regression :
+    (run (Kcp.new 7) C12_cexOps).2.map (fun o => o.outs.length) = [0, 0, 0, 0, 1, 1, 0] ∧
+    (run (shiftK C12_cexσ (Kcp.new 7)) (C12_cexOps.map (shiftOp C12_cexσ))).2.map (fun o => o.outs.length)
+      = [0, 0, 0, 0, 1, 1, 0] := by decide
 
 end KcpVerif.Props
